@@ -2741,6 +2741,18 @@ def _through_identity(n):
     return n
 
 
+def _nf_size(n, limit):
+    """number of nodes of a normal form, counted up to `limit`"""
+    cnt = 0
+    stack = [n]
+    while stack and cnt < limit:
+        x = stack.pop()
+        cnt += 1
+        if isinstance(x, tuple):
+            stack.extend(y for y in x if isinstance(y, tuple))
+    return cnt
+
+
 def nf_simplify(n):
     """field of a struct literal -> the initialiser; element of a literal tuple by index"""
     if not isinstance(n, tuple):
@@ -3606,7 +3618,10 @@ class CallExpander:
             # (once, on the whole value: the passes below walk all of it)
             r = self._fold_const_components(r)
             r = self._fold_cow_matches(r)
-        return nf_simplify(r) if depth == 0 else r     # `Struct { f: e, .. }.f` of an expanded constructor helper is e
+            return nf_simplify(r)     # `Struct { f: e, .. }.f` of an expanded constructor helper is e
+        if depth == 0 and _nf_size(r, 400) < 400:
+            return nf_simplify(r)     # (small values are simplified on the way as well: the steps in between look at their shape)
+        return r
 
     def _borrows_its_argument(self, fn):
         """does every `Cow::Borrowed(x)` the function returns hold its own (first) text parameter? (then `Borrowed` means: unchanged)"""
@@ -3706,11 +3721,17 @@ class CallExpander:
     def _expand(self, n, depth=0):
         if not isinstance(n, tuple) or depth > 6:
             return n
+        return self._expand_uncached(n, depth)
+
+    def _expand_uncached(self, n, depth=0):
         if n[0] == "call" and isinstance(n[1], str):
             args = tuple(self.expand(a, depth) for a in n[2])
             if len(n) > 3:
                 return ("call", n[1], args) + tuple(n[3:])   # explicit type arguments: what it yields depends on them; kept as a call
-            s = self.summary(n[1]) if n[1] not in self.keep else None
+            stack = self.__dict__.setdefault("_expanding", [])
+            # a function that is being expanded already is not expanded inside itself (a trait method whose blanket impl hands on to the
+            # same method of what it wraps; mutual recursion): it stays a call there
+            s = self.summary(n[1]) if n[1] not in self.keep and n[1] not in stack else None
             if s is not None and len(s[0]) == len(args):
                 mapping = {}
                 for nm, a in zip(s[0], args):
@@ -3735,7 +3756,11 @@ class CallExpander:
                     gn = self._generics.get(n[1]) or []
                     if len(gn) == len(ga):
                         body = _subst_hole_types(body, dict(zip(gn, ga)))
-                return self.expand(body, depth + 1)
+                stack.append(n[1])
+                try:
+                    return self.expand(body, depth + 1)
+                finally:
+                    stack.pop()
             return ("call", n[1], args)
         if n[0] == "apply":
             f = self.expand(n[1], depth)
